@@ -355,6 +355,10 @@ def parse_cmd_pkt(line: bytes) -> tuple[bytes, list[bytes]]:
     return cmd, args[:-1].split(b"\0")
 
 
+# A pkt-line is at most 65520 bytes long including its four byte length prefix.
+MAX_PKT_PAYLOAD = 65516
+
+
 def pkt_line(data: bytes | None) -> bytes:
     """Wrap data in a pkt-line.
 
@@ -365,6 +369,12 @@ def pkt_line(data: bytes | None) -> bytes:
     """
     if data is None:
         return b"0000"
+    if len(data) > MAX_PKT_PAYLOAD:
+        # The length prefix has four hex digits; a longer payload would be
+        # emitted with a five digit prefix that no peer can parse.
+        raise ValueError(
+            f"pkt-line payload too long: {len(data)} > {MAX_PKT_PAYLOAD} bytes"
+        )
     return f"{len(data) + 4:04x}".encode("ascii") + data
 
 
